@@ -373,6 +373,7 @@ def run(rep: vlib.Reporter, tier: str, seed: int) -> None:
             and not coq_domains.get(id(r["plan"])) and i not in bad_wf]
     f_mid, _ = c01_midpass.family(rep, "C01", recs, elig, random.Random(seed * 31 + 7), 40 if big else 8)
     found |= f_mid
+    found |= c01_midpass.family_once(rep, "C01", recs, elig, random.Random(seed * 43 + 11), 12 if big else 4)
     # one polymorphic Link used by two concrete pairs: two JoinSteps produce the link's uuid (harness/polylink.py; recorded finding)
     from harness import polylink
     found |= polylink.check(rep, "C01")
@@ -428,6 +429,16 @@ def replay(path: str) -> int:
         srctie.replay(r, show=True)
         return 0
     install()
+    if r.get("kind") == "once":
+        import builtins
+        from mloda.user import ParallelizationMode
+        uni = Universe(r["spec"], GateListener())
+        uni.fail_exc = getattr(builtins, r["exc"])
+        key_ = (r["fail"][0], sorted(r["fail"][1])[0])
+        uni.fail_once.add(key_)
+        o = run_observed(uni.prepare(), modes={getattr(ParallelizationMode, r["mode"])}, timeout=30)
+        print("status:", o["status"], "executions of the failing calculation:", uni.fail_once_hits.get(key_, 0))
+        return 1 if uni.fail_once_hits.get(key_, 0) > 1 or o["status"] != "raised" else 0
     if r.get("kind") == "polylink":
         from harness import polylink
         return polylink.replay(r)
